@@ -1,7 +1,7 @@
 ------------------------------ MODULE Trace_Ooo ------------------------------
 (***************************************************************************)
 (* Level-B fidelity: recorded executions whose jobs all belong to one      *)
-(* single-stage out-of-order family (AES-CBC encrypt) are replayed through *)
+(* out-of-order family (AES-CBC encrypt, HMAC-SHA..) are replayed through  *)
 (* the level-A trace specification AND through the lane machine of         *)
 (* OooLanes.tla.  The lane model is deterministic: it says which jobs      *)
 (* finish inside each call (the set D that level A takes from the trace).  *)
@@ -10,8 +10,16 @@
 (***************************************************************************)
 EXTENDS Trace_ImbMgr
 
-CONSTANTS LaneCount, LaneStrict
-O == INSTANCE OooLanes WITH L <- LaneCount, MAXLEN <- 65535
+CONSTANTS LaneCount, LaneStrict,
+          Family,      \* "simple": OooLanes (single-phase cipher lanes), "hmac": OooHmac (multi-phase hash lanes)
+          LaneBlk      \* hmac: block size 64 or 128
+OS == INSTANCE OooLanes WITH L <- LaneCount, MAXLEN <- 65535
+OH == INSTANCE OooHmac WITH L <- LaneCount, MAXLEN <- 65535, BLK <- LaneBlk,
+                            PADMIN <- IF LaneBlk = 128 THEN 17 ELSE 9, Track <- FALSE
+NOJ == 0
+Empty == IF Family = "hmac" THEN OH!EmptyLanes ELSE OS!EmptyLanes
+Sub(st, j, t) == IF Family = "hmac" THEN OH!OSubmit(st, j, t.hlen) ELSE OS!OSubmit(st, j, t.len)
+Fl(st) == IF Family = "hmac" THEN OH!OFlush(st) ELSE OS!OFlush(st)
 
 VARIABLE ls          \* lane state of the family
 lvars == <<tvars, ls>>
@@ -20,19 +28,19 @@ lvars == <<tvars, ls>>
 RECURSIVE FlushLoop(_, _, _)
 FlushLoop(st, target, acc) ==
     IF target \in acc THEN [st |-> st, done |-> acc]
-    ELSE LET r == O!OFlush(st) IN
-         IF r.ret = O!NOJOB THEN [st |-> st, done |-> acc]
+    ELSE LET r == Fl(st) IN
+         IF r.ret = NOJ THEN [st |-> st, done |-> acc]
          ELSE FlushLoop(r.st, target, acc \cup {r.ret})
 
-Ids(S) == { j - 1 : j \in S \ {O!NOJOB} }
+Ids(S) == { j - 1 : j \in S \ {NOJ} }
 
 LaneStep ==
     LET t == Tr[l] m == M(t) IN
-    CASE t.e \in {"Reset", "Reinit"} -> ls' = O!EmptyLanes
+    CASE t.e \in {"Reset", "Reinit"} -> ls' = Empty
       [] t.e = "SubmitJob" ->
             IF t.valid = 0 THEN (LaneStrict => t.done = <<>>) /\ UNCHANGED ls
-            ELSE LET r1 == O!OSubmit(ls, t.id + 1, t.len)
-                     d1 == IF r1.ret = O!NOJOB THEN {} ELSE {r1.ret}
+            ELSE LET r1 == Sub(ls, t.id + 1, t)
+                     d1 == IF r1.ret = NOJ THEN {} ELSE {r1.ret}
                      nx == Adv(next[m], 1)
                      full == earliest[m] >= 0 /\ earliest[m] = nx
                      tgt == slot[m][earliest[m]].id + 1
@@ -48,7 +56,7 @@ LaneStep ==
                  /\ LaneStrict => Ids(r.done) = ToSet(t.done)
       [] OTHER -> UNCHANGED ls
 
-LInit == TraceInit /\ ls = O!EmptyLanes
+LInit == TraceInit /\ ls = Empty
 LNext == TraceNext /\ LaneStep
 LSpec == LInit /\ [][LNext]_lvars
 =============================================================================
